@@ -512,6 +512,11 @@ def g_taglines(s, p=0.35):
         out.append({"pre": g_miscs(s), "indent": g_indent(s), "tags": [g_tagname(s) for _ in range(n)],
                     "seps": [s.choice([" ", " ", "  ", "\t", "", " \xa0"]) for _ in range(n)], "trail": g_trail(s),
                     "comment": s.choice([None, None, None, "#c", "# @not a tag", "#@flaky", "#owner: qa@example.org", "# a @b c", "#"])})
+    if s.int(4) == 0:
+        # the same tag line once more (same indentation, same tags at the same columns), directly or after blank / comment lines
+        again = dict(out[-1])
+        again["pre"] = g_miscs(s) if s.int(2) else []
+        out.append(again)
     return out
 
 
@@ -521,6 +526,13 @@ def g_titled(s, kws, ctx, dialect, has_tags=True, p_desc=0.4):
         t["tags"] = g_taglines(s)
     if s.prob(p_desc):
         t["desc"] = [g_misc(s, allow_text=True) for _ in range(s.rng(1, 4))]
+        if s.int(4) == 0:
+            # a line that starts like a keyword line of this dialect, in another capitalisation: free text (keywords are case-sensitive)
+            from .refs import DIALECTS as _D, TITLE_CATS as _T
+            k = s.choice(_D[dialect][s.choice(_T)])
+            v = s.choice([k.lower(), k.upper(), k.swapcase(), k.title(), k[:1].lower() + k[1:]])
+            if v != k:
+                t["desc"].insert(s.int(len(t["desc"]) + 1), {"k": "text", "raw": g_indent(s) + v + ":" + s.choice(["", " x", " " + k])})
         for m in t["desc"]:
             # sound by construction: a description line must not be anything the grammar expects at this point
             if m["k"] == "text" and trim(m["raw"]) and any(k in EXPECTED[ctx] for k in cf_kinds(dialect, m["raw"] + "\n")):
